@@ -588,11 +588,13 @@ func runC18(tier string) int {
 	sort.Strings(sh)
 	r.Set("distinct_error_messages_reached", len(sh))
 	for i, s := range sh {
-		if i < 5 {
+		if i < 2 {
 			r.Sample(map[string]interface{}{"error_message_shape": s})
 		}
 	}
-	r.Sample(map[string]interface{}{"input": spaces[1].input(spaces[1].total / 3), "space": spaces[1].kind})
+	for _, sp := range spaces {
+		r.Sample(map[string]interface{}{"input": sp.input(sp.total / 3), "space": sp.kind})
+	}
 	r.Set("configurations", len(c18Configs(tier)))
 	r.Assume("a hang is a worker that produces nothing for 10 s on one input (normal cost ~10 microseconds), confirmed by re-running that input alone",
 		"configurations are a covering set, not the full matrix: every option value appears in at least one configuration",
